@@ -12,7 +12,8 @@ pub fn f4_role(x: f64, y: f64) -> bool {
   if q > 3.0 { q = 3.0; }
   let u = x - (2.0 * q + 1.0);
   let au = if u < 0.0 { -u } else { u };
-  au >= (2.0 - ay) - 2.0 * eps
+  // on the centre line of a base cell (in particular exactly at a pole) the position is not next to a seam
+  au != 0.0 && au >= (2.0 - ay) - 2.0 * eps
 }
 
 pub fn c11_n_hash(nside: u32) -> u64 { 12 * (nside as u64) * (nside as u64) }
